@@ -248,6 +248,9 @@ def s4(ctx):
             ok = ro.must_pass(some_e, ro.return_blocks(), set(none_e) | st_blocks)
             ctx.check(ok, "every-iteration:all-hooks", "the hook loop is left early only towards recording a stop reason", "the hook loop can be left early without a stop reason: later hooks are skipped silently", where_of(ro, sb))
     ap = [c for c in ro.calls if c.callee and c.callee.name == "apply_rewrites"]
+    for c in limit_calls:
+        ctx.check(bool(ap) and ro.dominated_by(c.bb, {x.bb for x in ap}), "limits-after-apply", "the limits are evaluated on the e-graph this iteration produced (after apply_rewrites)",
+                  "run_one evaluates the limits before apply_rewrites: the verdict (e.g. NodeLimit) describes the previous state, the run does one more iteration, and the reason reported need not be true of the final e-graph", where_of(ro, c.bb))
     ctx.check(len(ap) == 1 and ro.must_pass([0], ro.return_blocks(), {c.bb for c in ap}), "one-apply-per-iteration", "run_one applies the rules exactly once", "run_one does not apply the rules exactly once per iteration", where_of(ro))
     st = [bi for bi, si, s in ro.statements() if s["k"] == "assign" and mir.place_has_field(s["lhs"], "run::runner::Runner", "stop_reason")]
     okst = False
